@@ -694,6 +694,63 @@ theorem zrange_bound_laws (s : State) (k : Nat) (b : Option Bound) (ws : Bool)
     · simp
     · simp [List.length_take]; omega
 
+/-! ## 5e. SORT key [STORE dst] -/
+
+theorem sortInsert_perm (x : BS) (l : List BS) : (sortInsert x l).Perm (x :: l) := by
+  induction l with
+  | nil => exact List.Perm.refl _
+  | cons y ys ih =>
+    simp only [sortInsert]
+    split
+    · exact (List.Perm.cons y ih).trans (List.Perm.swap x y ys)
+    · exact List.Perm.refl _
+
+/-- the result of SORT is a rearrangement of the source's elements: nothing lost, nothing invented -/
+theorem sort_is_permutation (l : List BS) : (sortAll l).Perm l := by
+  induction l with
+  | nil => exact List.Perm.refl _
+  | cons x xs ih =>
+    show (sortInsert x (sortAll xs)).Perm (x :: xs)
+    exact (sortInsert_perm x (sortAll xs)).trans (List.Perm.cons x ih)
+
+/-- SORT decision table: wrong source type / one non-numeric element → error and nothing
+    changes (the destination keeps value AND deadline); otherwise STORE replaces the destination
+    by the sorted list WITHOUT a deadline (or deletes it when the result is empty) -/
+theorem sort_table (s : State) (hwf : NMap.WF s) (k d : Nat) :
+    (sortSource s k = none → ∀ st, execSort s k st = (s, .err .wrongType)) ∧
+    (∀ es, sortSource s k = some es → es.any (fun e => (sortNum e).isNone) = true →
+        ∀ st, execSort s k st = (s, .err .notDouble)) ∧
+    (∀ es, sortSource s k = some es → es.any (fun e => (sortNum e).isNone) = false →
+        execSort s k none = (s, .arr ((sortAll es).map Elem.bulk)) ∧
+        (execSort s k (some d)).2 = .int es.length ∧
+        (es = [] → NMap.get (execSort s k (some d)).1 d = none) ∧
+        (es ≠ [] → NMap.get (execSort s k (some d)).1 d = some ⟨.list (sortAll es), none⟩)) := by
+  refine ⟨?_, ?_, ?_⟩
+  · intro h st; simp [execSort, h]
+  · intro es h hb st; simp only [execSort, h, hb, if_true]
+  · intro es h hb
+    have hlen : (sortAll es).length = es.length := (sort_is_permutation es).length_eq
+    refine ⟨?_, ?_, ?_, ?_⟩
+    · simp only [execSort, h, hb]; rfl
+    · simp only [execSort, h, hb]; simp [hlen]
+    · intro he; subst he
+      simp [execSort, h, sortAll, putList, NMap.get_erase hwf]
+    · intro hne
+      have : sortAll es ≠ [] := by
+        intro e; rw [e] at hlen; exact hne (List.length_eq_zero_iff.mp hlen.symm)
+      have hp : putList s d (sortAll es) none = NMap.insert d ⟨.list (sortAll es), none⟩ s := by
+        unfold putList
+        split
+        · rename_i e; exact absurd e this
+        · rfl
+      simp [execSort, h, hb, hp, NMap.get_insert]
+
+/-- numeric, not lexicographic: 10 sorts after 9; ties by bytes; strtod's integer syntax -/
+theorem sort_examples :
+    sortAll [[49, 48], [57], [45, 51], [48, 48, 55], [55]] = [[45, 51], [48, 48, 55], [55], [57], [49, 48]] ∧
+    sortNum [32, 43, 53] = some 5 ∧ sortNum [] = some 0 ∧ sortNum [49, 50, 97] = none ∧
+    sortNum [45] = none ∧ sortNum [49, 32] = none := by decide
+
 /-! ## 6. integer laws -/
 
 /-- only canonical texts are accepted: no `+`, no leading zero (except "0"), no `-0`, no
